@@ -2,6 +2,7 @@
    Model: Model/RefCore.v (desugaring), Model/RefValue.v, Model/RefEval.v (reference interpreter). *)
 From RJ Require Import Base.Outcome Base.F64 Model.Token Model.Ast Model.RefCore Model.RefValue Model.RefEval.
 From RJ Require Import Proofs.RefSem_proofs Proofs.RefSem_laws Proofs.RefSem_params.
+From RJ Require Import Model.Analyze Proofs.RefScope_defs Proofs.RefScope_main Proofs.RefScope_static.
 Local Open Scope N_scope.
 
 (* ---- the interpreter is a function; more fuel / a larger stack limit never change a verdict ---- *)
@@ -132,6 +133,18 @@ Theorem C02_named_positional_disjoint : forall ps pos named bpos rest x t t',
   exists e, bind_args ps pos named = Err e.
 Proof. exact named_positional_disjoint. Qed.
 
+(* ---- run-time scope soundness (C09, second sentence, over this evaluator) ---- *)
+Theorem C02_core_no_static_error : forall x, closed [s_std] false x ->
+  forall fuel c, ~ static_error (run_core fuel c x).
+Proof. exact core_no_static_error. Qed.
+
+Theorem C02_static_ok_closed : forall e, StaticOK [s_std] false e -> closed [s_std] false (desugar e).
+Proof. exact static_ok_closed. Qed.
+
+Theorem C02_refeval_no_static_error : forall e, StaticOK [s_std] false e ->
+  forall fuel c, ~ static_error (run fuel c e).
+Proof. exact refeval_no_static_error. Qed.
+
 (* ---- not proved (kept as goals): the two documented deviations of the implementation can only
         change WHICH error is reported, or turn an error into a value — never a value ---- *)
 Definition C02_goal_comprehension_order : Prop := forall fuel lim ts e t j,
@@ -190,6 +203,16 @@ Proof.
   eexists. vm_compute. reflexivity.
 Qed.
 
+(* the static rules accept the object program (self inside an object) and a use of std *)
+Example C02_static_nonvacuous : StaticOK [s_std] false prog_obj /\ StaticOK [s_std] false (EIdent sp0 (idn s_std))
+  /\ static_error (@pair (list str) (outcome json err) [] (Err (EStatic "UnknownVariable"))).
+Proof.
+  split; [|split].
+  - unfold prog_obj. repeat (econstructor; simpl); intuition discriminate.
+  - constructor. left. reflexivity.
+  - eexists. reflexivity.
+Qed.
+
 Print Assumptions C02_refsem_deterministic.
 Print Assumptions C02_fuel_monotone.
 Print Assumptions C02_limit_monotone.
@@ -214,3 +237,7 @@ Print Assumptions C02_assert_no_message.
 Print Assumptions C02_defaults_see_all_params.
 Print Assumptions C02_named_positional_disjoint.
 Print Assumptions C02_nonvacuous.
+Print Assumptions C02_core_no_static_error.
+Print Assumptions C02_static_ok_closed.
+Print Assumptions C02_refeval_no_static_error.
+Print Assumptions C02_static_nonvacuous.
